@@ -582,6 +582,47 @@ func CheckC09(run *ev.Run) {
 			st["enum-value:contained"]++
 		}
 	}
+	// (f) targets outside the site table: `generate cli` (free text between backticks in the cobra commands) and
+	// `generate server --implementation-package` (the autoconfigure file writes descriptions inside /* */)
+	for _, pr := range []struct {
+		name, kind, field, payload string
+		extra                      []string
+	}{
+		{"cli:securityDefinition.description", "cli", "securityDefinition.description", "a` + ZQInjected + `b", nil},
+		{"cli:tag.description", "cli", "tag.description", "a` + ZQInjected + `b", nil},
+		{"autoconfigure:tag.description", "server", "tag.description", "a */ var ZQInjected = 1 /* b", []string{"--implementation-package", "x/target/impl"}},
+	} {
+		vals := map[string]string{}
+		for k, v := range neutralVals {
+			vals[k] = v
+		}
+		vals[pr.field] = pr.payload
+		spec := TextSpec(vals)
+		root, specPath, target, err := NewTarget("c09f", spec)
+		if err != nil {
+			continue
+		}
+		args := append([]string{"-f", specPath, "-t", target, "-A", "textapp"}, pr.extra...)
+		gerr := GenInProc(pr.kind, args, nil)
+		run.Case("other-target|" + pr.name)
+		if gerr != nil {
+			st["other-target:generation-fails"]++
+			if os.Getenv("VERIF_DEBUG") != "" {
+				fmt.Fprintln(os.Stderr, "other-target probe:", pr.name, tail(gerr.Error(), 300))
+			}
+			_ = os.RemoveAll(root)
+			continue
+		}
+		_, injected := declSkeleton(target)
+		_ = os.RemoveAll(root)
+		if injected {
+			st["other-target:INJECTED"]++
+			run.Deviation("injection:"+pr.name, "free text of the spec is compiled as Go in a target outside the site table ("+pr.name+")",
+				map[string]interface{}{"spec": json.RawMessage(spec), "field": pr.field, "payload": pr.payload, "command": append([]string{"swagger", "generate", pr.kind}, args...)})
+		} else {
+			st["other-target:contained"]++
+		}
+	}
 	if len(run.Samples) == 0 {
 		run.Sample(map[string]interface{}{"field": "operation.summary", "payload": payloadFor("block"), "sites": len(sites)})
 		for f, v := range notOK {
